@@ -203,6 +203,28 @@ func runJSONCase(c jsonCase) *core.Failure {
 	if d := model.Diff(want, back); d != "" {
 		return core.Failf("ReadJSON(ToJSON(frame)) differs: %s\n %s\n want: %s\n  got: %s", d, desc, want, back)
 	}
+	// two write/read cycles through ONE bytes.Buffer that already owns memory (it held other text before): ToJSON
+	// appends exactly its document, ReadJSON consumes what it reads, the second cycle is as good as the first
+	{
+		bb := bytes.NewBuffer(make([]byte, 0, 3*len(out)+64))
+		bb.WriteString(strings.Repeat("#", len(out)+16))
+		bb.Reset()
+		for cycle := 1; cycle <= 2; cycle++ {
+			if err := qf.ToJSON(bb); err != nil {
+				return core.Failf("ToJSON into a reused bytes.Buffer (cycle %d): %v", cycle, err)
+			}
+			if !bytes.Equal(bb.Bytes(), out) {
+				return core.Failf("ToJSON into a reused bytes.Buffer (cycle %d) wrote %q, into a fresh buffer %q", cycle, headStr(bb.String(), 300), headStr(string(out), 300))
+			}
+			again := model.Observe(qframe.ReadJSON(bb, opts...))
+			if d := model.Diff(want, again); d != "" {
+				return core.Failf("ReadJSON from the bytes.Buffer ToJSON wrote into (cycle %d) differs: %s\n %s", cycle, d, desc)
+			}
+			if bytes.Contains(bb.Bytes(), []byte("[")) {
+				return core.Failf("ReadJSON left the document (or part of it) unread in the bytes.Buffer it read from (cycle %d): %q", cycle, headStr(bb.String(), 200))
+			}
+		}
+	}
 	// a second read (the records in reverse order): same rows reversed, and the frame returned by the first read,
 	// a value of its own, is unchanged
 	if in.N <= 64 {
